@@ -20,7 +20,8 @@ func verifTierBound(quick, thorough int) int {
 }
 
 var c16Session = quickfix.SessionID{BeginString: "FIX.4.2", SenderCompID: "S", TargetCompID: "T"}
-var c16Other = quickfix.SessionID{BeginString: "FIX.4.2", SenderCompID: "S", TargetCompID: "U"}
+// the second session's file-name prefix extends the first one's
+var c16Other = quickfix.SessionID{BeginString: "FIX.4.2", SenderCompID: "S", TargetCompID: "T2"}
 
 type c16Msg struct {
 	seq int
@@ -174,6 +175,15 @@ func VerifHarness_C17_crash() {
 	nDone := verifConc(ndInt("completed-saves", 0, 1+verifTier()))
 	for i := 0; i < nDone; i++ {
 		b := c16Bytes("done")
+		verifAssume(store.SaveMessageAndIncrNextSenderMsgSeqNum(N, b) == nil)
+		done = append(done, c16Msg{N, b})
+		N++
+	}
+	if nDone > 0 && ndBool("completed-reset-then-one-save") {
+		// history continues: the store was reset and used again
+		verifAssume(store.Reset() == nil)
+		done, N, T = nil, 1, 1
+		b := c16Bytes("afterreset")
 		verifAssume(store.SaveMessageAndIncrNextSenderMsgSeqNum(N, b) == nil)
 		done = append(done, c16Msg{N, b})
 		N++
